@@ -71,6 +71,7 @@ pub struct Stats {
     pub injected_near_edge: u32,
     pub injected_must_reject: u32,
     pub injected_must_reject_but_queue_nonempty: u32,
+    pub window_updates_checked: u32,
     pub rst_emitted_in_fair: bool,
     pub fair_rounds_used: u32,
     pub fair_rounds_bound: u32,
@@ -482,8 +483,29 @@ impl World {
                     self.sides[from].read_tainted = true;
                 }
             }
+            // window bookkeeping: a segment that is certainly the newest acknowledgment (processed at
+            // once, in sequence, acknowledging SND.UNA or more) must leave SND.WND equal to the window it advertises
+            let certain_update = matches!(b.state, State::Established | State::FinWait1 | State::FinWait2 | State::CloseWait)
+                && b.unprocessed_segments == 0
+                && seg.header.ctl.ack()
+                && !seg.header.ctl.syn()
+                && !seg.header.ctl.rst()
+                && seg.header.seq == b.rcv_nxt
+                && {
+                    // RFC 9293 3.10.7.4: the window is updated when SND.UNA =< SEG.ACK =< SND.NXT
+                    let adv = seg.header.ack.wrapping_sub(b.snd_una);
+                    adv <= b.snd_nxt.wrapping_sub(b.snd_una)
+                };
+            let advertised = seg.header.wnd;
             let tcb = self.sides[to].tcb.as_mut().unwrap();
             let r = guard(|| tcb.segment_arrives(seg))?;
+            if certain_update && r != SegmentArrivesResult::Close {
+                let a = self.snap(to).unwrap();
+                if advertised != b.snd_wnd {
+                    self.stats.window_updates_checked += 1;
+                }
+                ensure!(a.snd_wnd == advertised, "send_window", "window_update_ignored", "step {step}: side {to} processed the newest acknowledgment (seq = RCV.NXT, ack advances SND.UNA) advertising window {advertised} but records SND.WND = {} (was {})", a.snd_wnd, b.snd_wnd);
+            }
             if r == SegmentArrivesResult::Close {
                 if must_reject {
                     fail!("unacceptable_segment_ignored", "released_by_unacceptable_segment", "step {step}: a segment that must be rejected released side {to} (was {:?})", b.state);
@@ -767,6 +789,20 @@ pub fn gen_op(e: &mut Entropy, w: &World, cfg: &GenCfg, bytes_left: &mut usize, 
 }
 
 pub fn gen_inject(e: &mut Entropy, w: &World, to: usize) -> Op {
+    if e.chance(1, 5) {
+        // a forged window update that is certainly the newest acknowledgment
+        if let Some(sn) = w.snap(to) {
+            let in_flight = sn.snd_nxt.wrapping_sub(sn.snd_una);
+            let ack = if in_flight == 0 || e.chance(1, 3) { sn.snd_una } else { sn.snd_una.wrapping_add(1 + e.choose(in_flight as usize) as u32) };
+            let wnd = match e.weighted(&[2, 2, 2, 1]) {
+                0 => 0,
+                1 => e.choose(300) as u16,
+                2 => e.u16(),
+                _ => 65535,
+            };
+            return Op::Inject { to, flags: 0x10, seq: sn.rcv_nxt, ack, wnd, len: 0 };
+        }
+    }
     let flags = match e.weighted(&[4, 3, 2, 1, 1, 1, 4]) {
         0 => 0x10,       // ACK
         1 => 0x18,       // PSH ACK
